@@ -113,7 +113,7 @@ func execRebalance(run *simkit.Run) {
 	var remotes []*remote
 	statuses := []cluster.NodeStatus{cluster.NodeStatusActive, cluster.NodeStatusUnreachable, cluster.NodeStatusLeft}
 	for i, op := range c.Script {
-		if run.Failed() {
+		if run.Stop() {
 			break
 		}
 		run.Step = i
@@ -208,7 +208,7 @@ func execRebalanceWiring(run *simkit.Run) {
 		w.startNode(nodeOpts{interval: 50 * time.Millisecond, tweak: func(_ int, conf *config.Config) {
 			conf.Upstream.Rebalance = config.RebalanceConfig{Threshold: thr, ShedRate: rate, MinConns: 1}
 		}})
-		if run.Failed() {
+		if run.Stop() {
 			return
 		}
 	}
